@@ -22,7 +22,8 @@ META = {
             "explicitly complex-typed (complex(...)), otherwise the kernel is NaN for that nf. (3) CLEAN REFUSALS: the kernel "
             "dispatchers refuse unknown orders/methods with NotImplementedError/ValueError and a non-empty message; raise "
             "statements in configuration-dispatch functions use those two classes. (4) every function of the kernel, scale-"
-            "variation and dispatcher modules returns a value on all paths (no implicit None).",
+            "variation and dispatcher modules returns a value on all paths (no implicit None)."
+            " (2b) DIVISORS: in a second extraction with real parts taken literally every divisor that is a constant of the configuration is evaluated (mpmath) for nf 3-6; an exactly vanishing one (the real part of a purely imaginary square root) is a violation.",
     "note": "Finiteness of the numbers themselves needs execution and is not decided. The domain rule decides constants of the "
             "configuration only (arguments depending on couplings or N are skipped and counted).",
     "technique": "partial evaluation over the finite configuration space with call-site hooks (sign of real-domain arguments), slot-fill / refusal rules, CFG all-paths-return",
